@@ -422,6 +422,12 @@ class Engine:
             r = o.get("repr", "")
             if r == "()":
                 return UNIT
+            if o["ty"] in ("f64", "f32") and (r.endswith("f64") or r.endswith("f32")):
+                try:
+                    from fractions import Fraction
+                    return C(Fraction(r[:-3]))
+                except Exception:
+                    pass
             if r.startswith('"'):
                 return C(r.strip('"'))
             if o.get("unevaluated"):
@@ -795,8 +801,11 @@ class Engine:
                     yield from self.summaries[name](self, frame, st, args, fj, depth, site)
                     return
         # 4. opaque; &mut arguments pointing into tracked objects are havocked
-        rv = self.opaque(st, target, args, pure=(target in self.opaque_pure or strip_generics(target) in self.opaque_pure))
+        pure = target in self.opaque_pure or strip_generics(target) in self.opaque_pure
+        rv = self.opaque(st, target, args, pure=pure)
         for i, a in enumerate(args):
+            if pure:
+                break
             if a[0] == "ptr" and self.arg_is_mut(fj, t, i):
                 cur = self.read_rp(st, a[1], a[2])
                 self.write_rp(st, a[1], a[2], ("call", "havoc:" + target, (cur,), self.next_uniq(st, "havoc:" + target)), site)
@@ -1204,7 +1213,31 @@ def s_discriminant_value(eng, frame, st, args, fj, depth, site):
     yield st, eng.discr_of(v, variants)
 
 
+def s_nonzero_new(eng, frame, st, args, fj, depth, site):
+    v = args[0]
+    if v[0] == "c":
+        yield st, (some(v) if v[1] != 0 else NONE)
+        return
+    z = binop("Eq", v, C(0))
+    for c in st.cond:
+        if c[0] == "truth" and c[1] == z:
+            yield st, (NONE if c[2] else some(v))
+            return
+    s1 = st.fork()
+    s1.cond.append(("truth", z, True))
+    yield s1, NONE
+    s2 = st.fork()
+    s2.cond.append(("truth", z, False))
+    yield s2, some(v)
+
+
+def s_nonzero_get2(eng, frame, st, args, fj, depth, site):
+    yield st, args[0]
+
+
 DEFAULT_SUMMARIES = {
+    "std::num::NonZero::new": s_nonzero_new,
+    "std::num::NonZero::get": s_nonzero_get2,
     "std::intrinsics::discriminant_value": s_discriminant_value,
     "core::intrinsics::discriminant_value": s_discriminant_value,
     "std::cmp::PartialOrd::lt": s_cmp("Lt"),
